@@ -77,3 +77,41 @@ Proof.
   - intros Hd. rewrite Hd. unfold api_block. cbn [Z.eqb Pos.eqb]. exact (blocks_concat_is_range size start stop Hs Hst).
   - intros Hd r. unfold api_block. destruct (Z.eqb_spec (depth_after 0 ops) 1) as [He|_]; [contradiction|reflexivity].
 Qed.
+
+(* ---- the helpers and the reductions as called (refusal outside declared regions) ---- *)
+Lemma nested_depth_nonneg : forall ops d, nested d ops = true -> 0 <= d -> 0 <= depth_after d ops.
+Proof.
+  induction ops as [|o ops IH]; intros d Hn Hd; cbn [depth_after]; [exact Hd|].
+  destruct o; cbn [nested] in Hn.
+  - apply IH; [exact Hn|lia].
+  - apply andb_prop in Hn. destruct Hn as [H1 Hn]. apply Z.leb_le in H1. apply IH; [exact Hn|lia].
+Qed.
+
+(* work is handed out in blocks exactly where the reductions sum, whole where they leave the data alone, and both
+   refuse together *)
+Theorem shared_exactly_where_summed : forall region level v size start stop rank,
+  match reduce_mode region level with
+  | RSummed => helper region level v size start stop rank = Handed (block v size start stop rank)
+  | RUntouched => helper region level v size start stop rank = Handed (zrange start stop)
+  | RRefused => helper region level v size start stop rank = Refused
+  end.
+Proof.
+  intros. unfold reduce_mode, helper, api_block. destruct (region <? 1); [reflexivity|]. destruct (level =? 1); reflexivity.
+Qed.
+
+(* in a program of well-nested regions opened from a new configuration (both counters 0), the helpers and the reductions
+   refuse exactly outside all regions *)
+Theorem refused_exactly_outside_regions : forall ops (sh : bool) v size start stop rank, nested 0 ops = true ->
+  let s := r_run sh (mkR 0 0) ops in
+  (helper (r_region s) (r_level s) v size start stop rank = Refused <-> depth_after 0 ops = 0) /\
+  (reduce_mode (r_region s) (r_level s) = RRefused <-> depth_after 0 ops = 0).
+Proof.
+  intros ops sh v size start stop rank Hn s.
+  destruct (nested_tracks_depth ops sh (mkR 0 0) 0 Hn ltac:(lia) ltac:(destruct sh; cbn; lia)) as [_ Hrun].
+  pose proof (nested_depth_nonneg ops 0 Hn ltac:(lia)) as Hd.
+  subst s. rewrite Hrun. cbn [r_level r_region]. unfold helper, reduce_mode.
+  destruct (Z.ltb_spec (0 + (depth_after 0 ops - 0)) 1) as [Hlt|Hge].
+  - split; split; intros; try reflexivity; lia.
+  - split; split; intros H; try lia; [discriminate H|].
+    destruct ((0 + (if sh then depth_after 0 ops - 0 else 0)) =? 1); discriminate H.
+Qed.
